@@ -721,6 +721,27 @@ def history_cases(r, n):
     return cases
 
 
+def cdx_property(case, res):
+    """an I/O error of the CDX write that follows a completed append: the error surfaces, no journal file remains, the archive
+    is the earlier bytes followed by exactly one more valid record, and a new run starts"""
+    if res.get('cdx_files') != 1:
+        return 'harness-no-cdx-file'
+    if res['outcome'] != 'oserror':
+        return 'cdx-error-not-reported' if res['outcome'] == 'completed' else 'cdx-error-wrong-exception'
+    if res['journals']:
+        return 'journal-remains-after-io-error'
+    before, after = bytes.fromhex(res['before']), bytes.fromhex(res['after'])
+    if not after.startswith(before):
+        return 'earlier-records-damaged'
+    parse = parse_gz if case['compress'] else parse_plain
+    rb, ra = parse(before, case.get('digests', True)), parse(after, case.get('digests', True))
+    if ra is None or rb is None or len(ra) != len(rb) + 1:
+        return 'archive-not-a-valid-record-sequence'
+    if res['refuses']:
+        return 'new-run-refuses-without-journal'
+    return None
+
+
 def history_property(case, res):
     """the property on a whole run, from the outcomes the implementation reported"""
     A, J = res['archive'], res['journal']
@@ -908,6 +929,20 @@ def _correspondence(ctx):
         bodies.append(module_file(items[i:i + 8]))
         index.append(('history', [{'history': c} for c in hc[i:i + 8]]))
     evaluations += len(hc)
+    # the CDX line that follows a completed append cannot be written (implementation only: the index is outside the journal model)
+    xc = [{'kind': 'cdx', 'compress': bool(i % 2), 'digests': i % 4 < 2, 'prior': [(r.randrange(0, 300), r.choice(['text', 'zeros', 'rand']))
+                                                                                     for _ in range(r.randrange(0, 4))],
+           'new': (r.choice([0, 1, 40, 700, 9000]), r.choice(['text', 'rand']))} for i in range(8 if not ctx.thorough else 64)]
+    xres = common.run_impl('c06_impl.py', {'cases': xc}, repo=ctx.repo)['results']
+    for c, res in zip(xc, xres):
+        why = cdx_property(c, res)
+        if why:
+            impl_violations.append({'why': why, 'target': 'cdx', 'case': c,
+                                    'impl': {k: res.get(k) for k in ('outcome', 'journals', 'refuses', 'cdx_files')}})
+        dist['cdx-line-unwritable/%s' % res.get('outcome')] = dist.get('cdx-line-unwritable/%s' % res.get('outcome'), 0) + 1
+        if res.get('outcome') == 'oserror':
+            nontriv.add(('cdx', repr(c)))
+    evaluations += len(xc)
     # start-up: check + constructor
     sc = startup_cases(r, 128 if not ctx.thorough else 1800)
     sres = common.run_impl('c06_impl.py', {'cases': sc}, repo=ctx.repo)['results']
@@ -997,6 +1032,9 @@ def replay(ctx, data):
     if case.get('kind') == 'startup':
         res = common.run_impl('c06_impl.py', {'cases': [case]}, repo=ctx.repo)['results']
         return bool(startup_terms([case], res)[1])
+    if case.get('kind') == 'cdx':
+        res = common.run_impl('c06_impl.py', {'cases': [case]}, repo=ctx.repo)['results'][0]
+        return cdx_property(case, res) is not None
     res = common.run_impl('c06_impl.py', {'cases': [case]}, repo=ctx.repo)['results'][0]
     return bool(violations_of(case, res))
 
@@ -1021,7 +1059,9 @@ LEVEL_NOTE = ('An error reported by the final unlink of the journal cannot leave
               'fault-pair and kill point of the small scope (plain/gzip x absent/empty/1-3 earlier records x record shapes x write '
               'prefixes), on random histories and on start-up directories on every check, comparing directory contents byte for byte. '
               'The gzip decoder is a parameter with a sampled front-locality hypothesis. Below write()/unlink() nothing is modelled '
-              '(fsync, power loss); non-OSError exceptions during an append are outside the property.')
+              '(fsync, power loss); non-OSError exceptions during an append are outside the property. The CDX line written after an append is outside '
+              'the journal model: an I/O error of that write is exercised on the implementation only (error reported, no journal left, one more '
+              'valid record, a new run starts).')
 TECHNIQUE = ('Coq proof by phase invariants over a primitive-operation file-system model with fault, second-fault and crash adversaries, '
              'induction over append histories, front-locality of a strict WARC reader; vm_compute correspondence against the real '
              'write_record / constructor under fault and kill injection, exhaustive for the small scope')
